@@ -177,8 +177,65 @@ func checkC01(p *Prog, r *Report) {
 			}
 		}
 	}
+	// shrink_buf, path by path: snd_una becomes the sn of snd_buf's head when there is one, snd_nxt otherwise
+	shrinkExact := false
+	if sh := p.FuncByName("(*KCP).shrink_buf"); sh != nil {
+		if sps, understood := p.SymPaths(sh); understood && len(sps) > 0 {
+			kcpT := tVar(p.selfVar(sh))
+			peek := normTerm(tCall(p.Method("RingBuffer", "Peek"), p.F(kcpT, "KCP", "snd_buf")))
+			got := &Term{Op: "proj", Int: 0, Args: []*Term{peek}}
+			okT := &Term{Op: "proj", Int: 1, Args: []*Term{peek}}
+			good, some, none := true, 0, 0
+			var badNode ast.Node
+			for _, sp := range sps {
+				var v *Term
+				cnt := 0
+				for _, st := range sp.Stores {
+					if st.Lhs.Key() == p.F(kcpT, "KCP", "snd_una").Key() {
+						v = st.Val
+						cnt++
+						badNode = st.Node
+					} else {
+						good = false
+					}
+				}
+				has := func(w *Term) bool {
+					for _, ct := range sp.Conds {
+						for _, a := range Conjuncts(ct) {
+							if a.Key() == w.Key() {
+								return true
+							}
+						}
+					}
+					return false
+				}
+				switch {
+				case cnt >= 1 && v.Key() == p.F(got, "segment", "sn").Key() && has(okT): // the last store on the path decides
+					some++
+				case cnt >= 1 && v.Key() == p.F(kcpT, "KCP", "snd_nxt").Key() && has(Negate(okT)):
+					none++
+				default:
+					good = false
+				}
+			}
+			if good && some > 0 && none > 0 {
+				shrinkExact = true
+				r.ok("C01.S4", sh.Name, p.Pos(sh.Node), "value of snd_una in shrink_buf", "on every path: the head segment's sn when Peek succeeds, snd_nxt when the buffer is empty")
+			} else {
+				pos := p.Pos(sh.Node)
+				if badNode != nil {
+					pos = p.Pos(badNode)
+				}
+				r.bad("C01.S4", sh.Name, pos, "value of snd_una in shrink_buf", "some path of shrink_buf does not set snd_una to the head segment's sn (buffer not empty) resp. snd_nxt (buffer empty): acknowledged data is considered outstanding, or outstanding data acknowledged", "")
+			}
+		}
+	}
 	for _, st := range p.FieldStores(p.Field("KCP", "snd_una")) {
 		if st.Fn.Name == "NewKCP" {
+			continue
+		}
+		if shrinkExact && st.Fn.Name == "(*KCP).shrink_buf" {
+			r.ok("C01.S4", st.Fn.Name, p.Pos(st.Node), "store(KCP.snd_una) in "+st.Fn.Name, "shrink_buf (value decided path by path)")
 			continue
 		}
 		okU := st.Fn.Name == "(*KCP).shrink_buf"
@@ -300,13 +357,13 @@ func checkC01(p *Prog, r *Report) {
 			okEq := false
 			for _, ct := range c.DominatingConds(pt) {
 				for _, a := range Conjuncts(ct) {
-					if a.Key() == eq(tVar(sn), p.F(st.Base, "segment", "sn")).Key() {
+					if a.Key() == eq(tVar(sn), p.F(st.Base, "segment", "sn")).Key() || p.sameSeqTest(st.Fn, a, tVar(sn), p.F(st.Base, "segment", "sn")) {
 						okEq = true
 					}
 				}
 			}
 			// the range test dominates the loop
-			recv := p.recvVar(fi)
+			recv := p.selfVar(fi)
 			kcp := tVar(recv)
 			fs := p.FactsOf(fi).AtNode(st.Node)
 			okRange := fs.Holds(le(tConst(0), p.Diff(tVar(sn), p.F(kcp, "KCP", "snd_una")))) && fs.Holds(lt(p.Diff(tVar(sn), p.F(kcp, "KCP", "snd_nxt")), tConst(0)))
@@ -320,7 +377,7 @@ func checkC01(p *Prog, r *Report) {
 	// ---- S7
 	{
 		send := p.FuncOf(p.Method("KCP", "Send"))
-		recv := p.recvVar(send)
+		recv := p.selfVar(send)
 		kcp := tVar(recv)
 		for _, st := range p.FieldStores(p.Field("segment", "frg")) {
 			if rootFuncInfo(st.Fn) != send || st.Rhs == nil {
@@ -496,6 +553,30 @@ func checkC01(p *Prog, r *Report) {
 					case f == p.Method("bufferPool", "Put"):
 					case f == p.Method("KCP", "Input"):
 					default:
+						// an extracted helper that only inspects and re-slices the packet (loop-free, no stores, no calls as statements)
+						if h := p.FuncOf(f); h != nil && f.Pkg() == p.Types && !f.Exported() {
+							if sps, understood := p.SymPaths(h); understood {
+								pure := true
+								for _, sp := range sps {
+									if len(sp.Stores) > 0 {
+										pure = false
+									}
+								}
+								inspectBody(h, func(z ast.Node) bool {
+									if hc, isHC := z.(*ast.CallExpr); isHC {
+										hf := p.Callee(hc)
+										bn := p.BuiltinName(hc)
+										if !(p.IsConversion(hc) || bn == "len" || bn == "cap" || bn == "min" || bn == "max" || (hf != nil && hf.Name() == "Uint16")) {
+											pure = false
+										}
+									}
+									return true
+								})
+								if pure {
+									break
+								}
+							}
+						}
 						okAll, why = false, "a recovered packet is handed to "+exprString(call.Fun)
 					}
 					return true
@@ -510,7 +591,7 @@ func checkC01(p *Prog, r *Report) {
 func checkSessionChunking(p *Prog, r *Report) {
 	fi := p.FuncByName("(*UDPSession).WriteBuffers")
 	send := p.Method("KCP", "Send")
-	recv := p.recvVar(fi)
+	recv := p.selfVar(fi)
 	mss := p.F(tFld(tVar(recv), p.Field("UDPSession", "kcp")), "KCP", "mss")
 	fa := p.FactsOf(fi)
 	c := p.CFG(fi)
@@ -680,7 +761,7 @@ func checkCoreCutting(p *Prog, r *Report) {
 		}
 	}
 	B := tVar(buf)
-	mss := p.F(tVar(p.recvVar(fi)), "KCP", "mss")
+	mss := p.F(tVar(p.selfVar(fi)), "KCP", "mss")
 	fa := p.FactsOf(fi)
 	c := p.CFG(fi)
 	fData := p.Field("segment", "data")
